@@ -33,7 +33,7 @@ CLAIMS = {
         technique='static analysis: symtable name resolution, per-path guard facts in front of the yield of the specification parser, taint of the raw specification, emitted-check presence (ast)',
         text='Decides the specification handling behind replace/linearize/derivative: every name in the anchored mechanisms resolves; all documented spellings are accepted; on every enumerated path '
              'to the yield of _argument_to_array the key type, membership, shape and dtype were verified by ValueError guards (or the replacement is built from the key); run-time ingestion emits '
-             'a casting-checked conversion to the declared kind + a shape test; the raw specification is consumed only through the parser; announced argument tables are computed from the parsed pairs. These are necessary for "all spellings '
+             'a casting-checked conversion to the declared kind + a shape test; the raw specification is consumed only through the parser; announced argument tables are computed from the parsed pairs. Monomial._derivative (the derivative of factored polynomials) scatters through the row-major flat index of the argument\'s multi-index (symbolic execution for 1..4 axes). These are necessary for "all spellings '
              'equivalent, wrong shape/dtype rejected"; that replace/linearize/factor commute with evaluation numerically is NOT decided.',
         note='Trusts: CPython ast/symtable; the parameter and local names of _argument_to_array as read today (the rule re-derives them from the signature and the yield).',
         design='DESIGN.md section 2, C13'),
@@ -87,7 +87,7 @@ CLAIMS = {
         text='PARTIAL. Decides protocol conformance of the rewrite system only: every override and every dynamic call site of the swap-rule protocol declared in evaluable.Array (and of _simplified, _derivative, '
              '_compile_with_out, ...) agrees in arity with the declaration, no _take/_takediag/_inflate rule hands its own axis parameters to the user-facing helper of the same name (different axis convention), and the '
              'fixed-point driver keeps its shape/dtype assertion, loop detection and memoisation. A mismatch is an exception or a transposed result the moment that pair of node kinds meets at depth >= 3, so the clauses are '
-             'necessary; termination and value preservation of the ~20 rules per class are NOT decided - no static argument in reach bounds the values over the unbounded term algebra. Also decided (R01.5): binary swap rules that merge two nodes equate the control operand they keep (Choose.index, Inflate.dofmap, LoopSum.index) and a foreign operand enters a loop body only if it is independent of that loop index (capture avoidance).',
+             'necessary; termination and value preservation of the ~20 rules per class are NOT decided - no static argument in reach bounds the values over the unbounded term algebra. Also decided (R01.5): binary swap rules that merge two nodes equate the control operand they keep (Choose.index, Inflate.dofmap, LoopSum.index) and a foreign operand enters a loop body only if it is independent of that loop index (capture avoidance); (R01.6) the iszero/isunit guards of rewrite rules test operands that simplification can decide (a guard over `a % b` is dead because Mod never folds constants).',
         note='Trusts: CPython ast; name-based MRO of the class model; the table of public-vs-protocol helper pairs confirmed by reading.',
         design='DESIGN.md section 2, C01'),
     'C04': dict(
@@ -95,7 +95,7 @@ CLAIMS = {
         text='PARTIAL. Decides the derivative tables: each Pointwise.deriv entry equals, in polynomial normal form, the textbook partial derivative of the NumPy function the class emits (and the class emits the function its '
              'name promises); the einsum patterns and signs of Multiply, Power, Inverse, Determinant, Product, Legendre, TransformCoords, Polyval and the chain rule equal the matrix-calculus patterns up to renaming; zero '
              'rules, memo and shape assertion of the driver; linear structural nodes act on the right axis of the derivative. A wrong table entry is a wrong Jacobian for every input, also where the suite\'s symmetric test '
-             'matrices hide it; chain-rule plumbing through loops/Custom/user operations and numerical accuracy are NOT decided. Terms of one product/power rule must be summed in one expression per branch, and derivatives accumulated over arguments must be added, not overwritten.',
+             'matrices hide it; chain-rule plumbing through loops/Custom/user operations and numerical accuracy are NOT decided. Terms of one product/power rule must be summed in one expression per branch, and derivatives accumulated over arguments must be added, not overwritten; Monomial._derivative scatters through the row-major flat index (symbolic execution).',
         note='Trusts: CPython ast; oracles/calculus.json (textbook calculus); the normal-form algebra is one-sided: an unforeseen but correct spelling (a trig identity) would be reported, accepted alternatives are listed in the oracle.',
         design='DESIGN.md section 2, C04'),
     'C02': dict(
@@ -128,7 +128,7 @@ CLAIMS = {
         text='PARTIAL (narrow). Decides that the final merge of the sparse form takes indices and inverse from one unique(..., return_inverse=True) over all parts, unravels the returned indices from that unique flat index with '
              'the same lengths (reversed) that flattened them, inflates the values over that inverse, that unique() wires sorter/mask/inverse consistently, and that the CSR tuple order (values, rowptr, colidx, ncols) agrees '
              'between evaluable.as_csr, matrix.assemble_csr/assemble_block_csr and function.as_csr. These are what make index tuples unique, sorted and decodable; the index arithmetic of each _assparse override, which is '
-             'where values and positions are computed, is NOT decided, except two clauses added after seeds: the stride vector of Inflate._assparse is row-major (symbolic evaluation), and Multiply._assparse keeps its factor clusters axis-disjoint.',
+             'where values and positions are computed, is NOT decided, except: the flattening and unravel loops of Array.assparse are executed symbolically (row-major, mutually inverse for 1..4 axes), and two clauses added after seeds: the stride vector of Inflate._assparse is row-major (symbolic evaluation), and Multiply._assparse keeps its factor clusters axis-disjoint.',
         note='Trusts: CPython ast; anchored on the current shape of Array.assparse (ANALYSIS-ERROR if refactored beyond recognition).',
         design='DESIGN.md section 2, C05'),
     'C07': dict(
